@@ -101,7 +101,8 @@ class C05(MemSpec):
     pid = 'C05'
     rule = ('cases = corpus + one case per edge of the breadth-first closure of the Coq model (scopes: 3 shared + 2 weak '
             'objects; 2 unique objects; block ids canonicalised, allocation failures as per-call relative ordinals) + '
-            'seeded random histories over 2 unique + 4 shared + 3 weak objects with failing allocations by ordinal; '
+            'seeded random histories over 2 unique + 4 shared + 3 weak objects with failing allocations by ordinal; every second '
+            'case with uget / sget is replayed through cstl_unique_ptr_get_const / cstl_shared_ptr_get_const (header constapi 1); '
             'non-trivial = at least two completed operations; distinct = distinct (header, operations) text')
     trusted = ['modelled, not verified: src/memory.c and the inline functions of include/cstl/memory.h are transcribed by hand '
                'into MemModel.v; the atomic_flag spin lock is not modelled (single thread); counters are unbounded naturals',
@@ -118,14 +119,16 @@ class C05(MemSpec):
             cases, st = self.closures([('shared', 100000), ('unique', 1000)])
         pv = probe_variants(cases, every=2)
         st['cbprobe_replays'] = len(pv)
-        return cases + pv, st
+        kv = memref.const_variants(cases, every=2)
+        st['constapi_replays'] = len(kv)
+        return cases + pv + kv, st
 
     def random_cases(self, tier, seed):
         rnd = random.Random(seed * 7919 + 5)
         n = 400 if tier == 'quick' else 6000
         kinds = ['U', 'U', 'S', 'S', 'S', 'S', 'W', 'W', 'W']
         cases = [memref.gen_case(rnd, 'rnd%d' % i, kinds, [], rnd.choice([8, 20, 40, 80]), W_PTR) for i in range(n)]
-        return cases + probe_variants(cases, every=2)
+        return cases + probe_variants(cases, every=2) + memref.const_variants(cases, every=2)
 
 
 SPEC = C05()
